@@ -1049,7 +1049,7 @@ Proof.
     + now rewrite (fr_mpmc _ _ _ FT).
     + now rewrite (fr_wait _ _ _ FT).
     + intros q0. rewrite O2. auto.
-    + cbn. rewrite G4, G5, WC. destruct (sched_of m kp); auto.
+    + rewrite G4, G5, WC. destruct (sched_of m kp); auto.
   - destruct (ret0 _ _ _ _ _ _ g' E ltac:(eauto)) as (L & F2 & W); auto.
     { now rewrite (fr_sched _ _ _ FT). } { now rewrite (fr_mpmc _ _ _ FT). } { now rewrite (fr_wait _ _ _ FT). }
     { intros q0. rewrite O2. auto. } { nocs. } { nocs. }
